@@ -342,6 +342,21 @@ def run_oracles(pid, tier, seed, stats, log, mult=1, known_hits=None):
             x['n'] = n
         per[name] = {'cases': n, 'violations': len(mine), 's': round(time.time() - t0, 1)}
         v += mine
+    if mult == 1 and pid in ('C04', 'C14'):
+        t0 = time.time()
+        nmax = 40 if tier == 'quick' else 160
+        g = [x for x in O.oracle_size_grid(nmax, stats) if x['property'] == pid]
+        per['size_window_grid_exhaustive'] = {'cases': stats.c.get('oracle.size_grid.points', 0), 'violations': len(g), 'nmax': nmax, 's': round(time.time() - t0, 1)}
+        if pid == 'C04':
+            t0 = time.time()
+            u = 7 if tier == 'quick' else 9
+            g += O.oracle_suffix_exhaustive(u, stats)
+            per['suffix_estimator_exhaustive'] = {'cases': stats.c.get('oracle.suffix_exhaustive.calls', 0), 'universe': u, 's': round(time.time() - t0, 1)}
+        for x in g:
+            x['oracle'] = 'exhaustive-grid'
+            x['seed'] = seed
+            x['n'] = 1
+        v += g
     if tier == 'thorough' and mult == 1:
         extra = []
         t0 = time.time()
